@@ -965,6 +965,16 @@ theorem facts_session :
         some ⟨r.2.2.1, r.2.2.2.1, r.2.2.2.2⟩ := by
   decide +kernel
 
+/-- **large payloads on the real framer** (64 KiB - 1, 64 KiB, 64 KiB + 1 and 200 000 bytes; the
+    chunk that completes the payload ends at the frame boundary - 1 / 0 / + 1; two more messages
+    behind): what came out is what was sent - same commands, lengths and payload checksums, in
+    order, nothing else.  The model side of these rows is not an evaluation but the general
+    theorem `frame_roundtrip` (every chunking of sendable frames decodes to the messages sent);
+    the rows only record lengths and checksums, the kernel does not see the payloads. -/
+theorem facts_large :
+    ∀ r ∈ Facts.C07.largeTable, r.2.2.2 = r.2.2.1 := by
+  decide +kernel
+
 /-- the defaults: 4-byte magic (so the general theorems apply to `BitcoinFramer()`), and
     `MessageSession.default_framer()` is a `BitcoinFramer` -/
 theorem facts_defaults :
